@@ -393,6 +393,11 @@ impl MultiState {
 
     pub(crate) fn suspend<F: FnOnce() -> R, R>(&mut self, f: F, now: Instant) -> R {
         let _ = self.clear(now);
+        // With bottom alignment `clear` keeps the height of the region as blank lines above the
+        // cursor. Whatever `f` prints ends up below them, so they must not be erased (counting
+        // upwards from the new cursor position) by the draw below.
+        self.draw_target
+            .adjust_last_line_count(LineAdjust::Keep(usize::MAX.into()));
         let ret = f();
         let _ = self.draw(true, None, Instant::now());
         ret
